@@ -105,6 +105,9 @@ fn classes(f: &F) -> String {
                     "ref"
                 }
             }
+            F::Var(_) => "var",
+            F::LambdaCall(..) => "lambdacall",
+            F::Let(..) => "let",
             F::Str(_) => "str",
             F::Err(_) => "err",
             F::Bool(_) => "bool",
